@@ -53,21 +53,28 @@ def c_maps_corr(ctx, args):
 def c_torch_history(ctx, args):
     """torchclifford circuits: one program object (gate / layers / compiled circuit) used for a HISTORY of forward and backward applications, each on a fresh operand;
     oracle = pyclifford applying the same gates one at a time (tied to the model by the other checks), and F.B / B.F restore the operand"""
-    N, prog, l, mode, hist = args          # mode 0 uncompiled, 1 layers compiled, 2 circuit compiled; hist e.g. 'BF', 'FBBF'
+    N, prog, l, mode, hist = args[:5]      # mode 0 uncompiled, 1 layers compiled, 2 circuit compiled; hist e.g. 'BF', 'FBBF'
+    when = args[5] if len(args) > 5 else 'never'       # the circuit is replaced by its copy: never | first (before any use or compilation) | compiled (after compiling) | used (after the first step)
     import vlib.impl_torch as TT
     # a torch circuit has no register size of its own: it is as wide as its highest qubit; operands are cut to that width
     N = 1 + max(max(ins[1][0]) for ins in prog)
     l = [[g[:2 * N], p] for g, p in l]
     try:
         c = TT.build_circuit(N, prog)
+        if when == 'first':
+            c = c.copy()
         if mode == 1:
             for layer in c.layers_forward():
                 layer.compile(N)
         elif mode == 2:
             c.compile()
+        if when == 'compiled':
+            c = c.copy()
     except Exception as e:
-        return {'kind': 'oracle', 'where': 'torch:building/compiling the circuit raised %s' % type(e).__name__, 'observed': str(e)[:120], 'expected': 'a circuit', 'tags': ['torch']}
+        return {'kind': 'oracle', 'where': 'torch:building/copying/compiling the circuit raised %s' % type(e).__name__, 'observed': str(e)[:120], 'expected': 'a circuit', 'tags': ['torch']}
     for step, d in enumerate(hist):
+        if when == 'used' and step == 1:
+            c = c.copy()
         o = TT.PL(l)
         ref = NP.PL(l)
         try:
@@ -97,6 +104,12 @@ def run(ctx):
         for d in ('fb', 'bf'):
             do(ctx, 'roundtrip', ['CliffordCircuit', 2, wit, [[[1, 0, 0, 0], 0], [[0, 1, 1, 1], 3]], mode, 'list', d], nontrivial=('w', mode, d), sample=(mode == 2))
     do(ctx, 'maps_corr', [2, wit], nontrivial='wm')
+    # registers beyond one machine word, gates on the qubits next to the word boundaries
+    for N in (65, 66, 130):
+        pool = gen.edge_pool(N)
+        prog = [[0, gen.rgate(rng, ctx.model, N, kinds=('gen', 'named', 'fwd', 'bwd'), pool=pool)] for _ in range(rng.randint(4, 9))]
+        for mode in (0, 1, 2):
+            do(ctx, 'roundtrip', ['CliffordCircuit', N, prog, gen.rplist_on(rng, N, 3, pool), mode, 'list', rng.choice(['fb', 'bf'])], nontrivial=('edge', N, mode))
     # LARGE registers: byte, word and cache-line boundaries of every packed or vectorised representation (8, 9, 16, 17, 33, 64, 65 qubits); model correspondence only
     for N in gen.BIG[:5]:
         prog = rprog(rng, ctx.model, N, rng.randint(3, 8))
@@ -124,4 +137,4 @@ def run(ctx):
     for it in range(int(70 * B)):
         N = rng.randint(1, 4)
         prog = [[0, gen.rgate(rng, ctx.model, N, kinds=('gen', 'fwd', 'fwd', 'bwd', 'both', 'named'))] for _ in range(rng.randint(1, 5))]
-        do(ctx, 'torch_history', [N, prog, gen.rplist(rng, N, 3), rng.choice([0, 0, 1, 2]), rng.choice(['F', 'B', 'FB', 'BF', 'BBF', 'FBBF', 'BFFB'])], nontrivial=('th', it))
+        do(ctx, 'torch_history', [N, prog, gen.rplist(rng, N, 3), rng.choice([0, 0, 1, 2]), rng.choice(['F', 'B', 'FB', 'BF', 'BBF', 'FBBF', 'BFFB']), rng.choice(['never', 'never', 'first', 'compiled', 'used'])], nontrivial=('th', it))
